@@ -376,6 +376,35 @@ Definition run (c : cfg) (t0 : T) (np : nat) (script : list attempt) : list bloc
 
 End Model.
 
+(* ---------------------------------------------------------------- avoid_restarts *)
+Section AvoidRestarts.
+Variable T : Type.
+Variable N : num T.
+
+(* AdaptivityBase.determine_restart including its `avoid_restarts` branch, one call:
+   (S.status.restart, S.status.force_continue) before -> after.
+   [more] = max(L.status.iter_to_convergence), [rho] = max(L.status.contraction_factor), [order] = coll.order *)
+Definition adapt_decide (c : cfg T) (avoid : bool) (iter maxiter more order : nat) (e rho : T)
+           (restart fc : bool) : bool * bool :=
+  if maxiter <=? iter then
+    if nleb N (c_e_tol c) e then
+      if avoid then
+        let k_final := iter + more in
+        if nltb N (n1 N) rho then (true, fc)
+        else if 2 * maxiter <? k_final then (true, fc)
+        else if order <? k_final then (true, fc)
+        else (restart, true)
+      else (true, fc)
+    else (restart, fc)
+  else (restart, fc).
+
+(* CheckConvergence.check_convergence for restol < 0, no e_tol on the level:
+   (iter_converged or force_done) and not force_continue *)
+Definition step_done (iter maxiter : nat) (force_done fc : bool) : bool :=
+  ((maxiter <=? iter) || force_done) && negb fc.
+
+End AvoidRestarts.
+
 (* ---------------------------------------------------------------- instances *)
 Definition num_float : num float :=
   Num PrimFloat.add PrimFloat.sub PrimFloat.mul PrimFloat.div PrimFloat.ltb PrimFloat.leb PrimFloat.eqb
